@@ -64,7 +64,17 @@ def handle(req):
 
             with warnings.catch_warnings(record=True) as w:
                 warnings.simplefilter("always")
-                if cfg:
+                if cfg and req.get("read_after_scope"):
+                    # analysed inside the scoped override, results read after the scope has ended
+                    with SQLLineageConfig(**cfg):
+                        lr0 = LineageRunner(req["sql"], dialect=req.get("dialect", "ansi"), **kw)
+                        lr0.source_tables
+                    out = _dump(lr0)
+                    if req.get("cyto"):
+                        out["cyto_table"] = lr0.to_cytoscape()
+                        out["cyto_column"] = lr0.to_cytoscape("column")
+                        out["summary"] = str(lr0)
+                elif cfg:
                     with SQLLineageConfig(**cfg):
                         out = go()
                 else:
